@@ -197,8 +197,8 @@ PROPS = {
                  {"engine": "shipsim1", "timeout": T_SIM},
                  {"engine": "mdnssim", "timeout": T_SIM, "env": {"VERIF_SCALE": "0.3"}},
                  {"engine": "timers", "timeout": T_SIM, "env": {"VERIF_SCALE": "0.3"}}],
-        "rule": 'all engines under the Go race detector: hubnet stress profile (3 hubs full mesh, 9 application goroutines issuing register/unregister/disconnect/cancel/pairing detail/service lookup/auto-accept/send/QR concurrently with Start, connection establishment, handshakes, echo traffic, TCP cuts, mDNS hide/show/re-announce storms and one hub shutting down) plus the pair/C02/C15 scenarios, the real-time multi-writer websocket scenarios, two-endpoint bubbles with concurrent senders, mdns manager/avahi bubbles and timer programs; a report counts if one of the two stacks has a non-test ship-go frame; de-duplicated by the innermost library functions of the two accesses; distinct = overlapping (operation, operation) pairs observed + scenario classes exercised under -race',
-        "assumptions": ['the race detector only sees races on executed paths and schedules that occurred', 'MdnsManager.Start wiring replaced by a hook that writes the same fields through the same setters'],
+        "rule": 'all engines under the Go race detector: hubnet stress profile (3 hubs full mesh, 9 application goroutines issuing register/unregister/disconnect/cancel/pairing detail/service lookup/auto-accept/send/QR concurrently with Start, connection establishment, handshakes, echo traffic, TCP cuts, mDNS hide/show/re-announce storms and one hub shutting down) plus the pair/C02/C15 scenarios, the real-time multi-writer websocket scenarios, two-endpoint bubbles with concurrent senders, mdns manager/avahi bubbles, timer programs, and real MdnsManagers started through the real Start with the zeroconf provider (real multicast sockets, 2-4 managers resolving each other, application goroutines issuing auto-accept/announce/unannounce/request/QR/shutdown concurrently); a report counts if one of the two stacks has a non-test ship-go frame; de-duplicated by the innermost library functions of the two accesses; distinct = overlapping (operation, operation) pairs observed + scenario classes exercised under -race',
+        "assumptions": ['the race detector only sees races on executed paths and schedules that occurred', 'in the bubble engines MdnsManager.Start wiring is replaced by a hook that writes the same fields through the same setters; the zeroconf rounds use the real Start and count as unavailable where the sandbox has no multicast-capable interface'],
         "floors": {'evaluations': 200, 'classes': 60, 'counters': {'hubnet:api-operations': 500}},
         "race_decides": True,
     },
